@@ -208,13 +208,14 @@ def r3(F, R):
     WIT = (r"FuturesUnordered::<.*>::(is_empty|len)$",)
     witness_args = []
     for i, a in enumerate(t_get["args"]):
-        sl = A.slice_back(ex, [a])
+        # direct dependence only: results of earlier awaits (previous loop turns) are not followed
+        sl = A.slice_back(ex, [a], stop_calls=[r"Future::poll$"])
         if sl.has_call(*WIT):
             witness_args.append(i)
     guard_wit = False
     for g in A.guards_of(ex, s_get):
         l = g.discr_local
-        if l is not None and A.slice_back(ex, start_locals=[l]).has_call(*WIT):
+        if l is not None and A.slice_back(ex, start_locals=[l], stop_calls=[r"Future::poll$"]).has_call(*WIT):
             guard_wit = True
     inv = drain_invocations(F, get)
     ser = [x for x in inv if x[3] == "Serial"]
